@@ -618,9 +618,21 @@ impl<'a> Builder<'a> {
                 let k = (s.p[0] % 4) as usize;
                 let sels = [s.a, s.b, s.c];
                 let mut parts = vec![];
-                for j in 0..k.min(3) {
-                    let i = if j == 0 { ia } else { pool.pick_where(sels[j], |t| *t == ta).unwrap_or(ia) };
-                    parts.push(pool.nodes[i].clone());
+                if s.p[1] & 1 == 1 {
+                    // the k most recent DISTINCT nodes of this type (e.g. several products gathered
+                    // into one container, which is then reshared / revealed as a whole)
+                    let cands: Vec<usize> = (0..pool.nodes.len()).rev().filter(|i| pool.types[*i] == ta).collect();
+                    let start = cands.iter().position(|i| *i == ia).unwrap_or(0);
+                    for j in 0..k.min(3) {
+                        if let Some(i) = cands.get(start + j) {
+                            parts.push(pool.nodes[*i].clone());
+                        }
+                    }
+                } else {
+                    for j in 0..k.min(3) {
+                        let i = if j == 0 { ia } else { pool.pick_where(sels[j], |t| *t == ta).unwrap_or(ia) };
+                        parts.push(pool.nodes[i].clone());
+                    }
                 }
                 g.create_vector(ta, parts).ok().map(|n| pool.push(n))
             }
